@@ -1146,6 +1146,64 @@ def run_C17(tier, rng, chk):
         hist.append(("c17_hist_%d" % i, L))
     out = chk.run_stream(hist, prop="C17")
     res.append(fam("histories(setter calls in every order interleaved with parse/clear/init)", hist, out, owned_keys=["cfg"]))
+    # writing a setting changes that setting and nothing else: instance 0 is told, between the
+    # groups, to set keys to the value they already have; instance 1 gets the same stream without
+    # those calls; every getter must agree after every group (both sides from the library, so
+    # decoding cancels out: what remains is what the redundant setter calls did)
+    tw = []
+    for i in range(scale(tier, 100, 600)):
+        gg = Gen(rng, heavy_special=(i % 4 == 0))
+        L = ["0 I %d" % rng.choice([0, 255]), "1 I %d" % rng.choice([0, 255])]
+        cur = {"X": rng.randrange(2)}
+        for k in (0, 1):
+            L.append("%d X %d" % (k, cur["X"]))
+        for t in range(3):
+            cur[("G", t)] = rng.randrange(2)
+            for ty in range(2):
+                cur[("T", t, ty)] = rng.randrange(3)
+        for k in (0, 1):
+            for t in range(3):
+                L.append("%d G %d %d" % (k, t, cur[("G", t)]))
+                for ty in range(2):
+                    L.append("%d T %d %d %d" % (k, t, ty, cur[("T", t, ty)]))
+            for f in range(12):
+                L.append("%d R %d 1" % (k, f))
+
+        def redundant():
+            key = rng.choice(list(cur.keys()))
+            if key == "X":
+                return "0 X %d" % cur["X"]
+            if key[0] == "G":
+                return "0 G %d %d" % (key[1], cur[key])
+            return "0 T %d %d %d" % (key[1], key[2], cur[key])
+        for _ in range(scale(tier, 120, 200)):
+            x = rng.random()
+            if x < 0.06:
+                # a real change, on both
+                key = rng.choice(list(cur.keys()))
+                if key == "X":
+                    cur["X"] ^= 1
+                    l = "0 X %d" % cur["X"]
+                elif key[0] == "G":
+                    cur[key] ^= 1
+                    l = "0 G %d %d" % (key[1], cur[key])
+                else:
+                    cur[key] = rng.randrange(3)
+                    l = "0 T %d %d %d" % (key[1], key[2], cur[key])
+            elif x < 0.08:
+                l = "0 C"
+            else:
+                l = gg.parse_line()
+            L.append(l)
+            L.append("1" + l[1:])
+            if rng.random() < 0.45:
+                for _ in range(rng.choice([1, 1, 2, 3])):
+                    L.append(redundant())
+            L.append("?s 0 1")
+        tw.append(("c17_idem_%d" % i, L))
+    out = chk.run_stream(tw, prop="-", twin=True)
+    res.append(fam("twin runs(setters called again with the value the key already has, between the groups, vs the same stream without those calls: "
+                   "every getter agrees after every group)", tw, out, twin=True, observer="-"))
     return res
 
 
